@@ -86,3 +86,9 @@ def run(ctx, fb, cfg):
     for p, ns in sorted(callers.items()):
         ctx.expect(p in MAKE_MUT_ALLOWED, rule, "%s|make_mut" % p, site_of(ns[0]), "new clone-on-write site: Rc::make_mut is sound for isolation, but the written object must be classified")
     ctx.floor(rule, len(callers), 5, "Rc::make_mut call sites")
+
+
+def run_once(ctx, tier):
+    import witness
+
+    witness.run(ctx, "C10", ['w4_state_not_copy', 'w5_state_shared_ref_readonly'])
